@@ -24,6 +24,8 @@ def weight(job):
     if job.get('op') == 'remove_subtree' and job['N'] >= 4: w *= (1 if job.get('fix_x') is not None else 4)
     if job.get('kind', '').startswith('c17'):
         return {0: 0.1, 1: 0.5, 2: 5, 3: 40, 4: 100}.get(job['N'], 1000)
+    if job.get('kind') == 'custom' and job.get('func') == 'run_clone_from_job':
+        return {0: 0.2, 1: 1, 2: 10, 3: 200}.get(max(job['N'], job['M']), 1000)
     if job.get('kind') == 'custom' and job.get('func') == 'run_clone_job':
         return {0: 0.1, 1: 0.5, 2: 8, 3: 150}.get(job['N'], 1000)
     if job.get('kind') == 'custom' and job.get('module') == 'kanileaf': return 500
@@ -71,6 +73,11 @@ def mutator_jobs(prop, tier):
                     for x in range(1, 5): jobs.append({'kind': 'mutator', 'op': op, 'N': 4, 'cfg': cfg, 'feat': 'std', 'props': [prop], 'fix_x': x})
                 else:
                     jobs.append({'kind': 'mutator', 'op': op, 'N': 4, 'cfg': cfg, 'feat': 'std', 'props': [prop]})
+            if tier == 'quick' and prop in ('C01', 'C03') and op in CHECKED and cfg == 'dev':
+                # one representative argument pair at N = 5 (a parent with four children needs five slots); the full 25-pair
+                # partition is in the thorough tier. By the symmetry of slot numbering this pair stands for most others, but that
+                # is a heuristic of the quick tier, not part of the claim.
+                jobs.append({'kind': 'mutator', 'op': op, 'N': 5, 'cfg': cfg, 'feat': 'std', 'props': [prop], 'fix_t': 1, 'fix_x': 2})
             if tier == 'thorough' and op in CHECKED and cfg == 'dev':
                 # N = 5 partitioned by the slot numbers of the two arguments (the union of the 25 sub-jobs is the same claim)
                 N = 5
@@ -133,6 +140,16 @@ def value_jobs(prop, tier):
             jobs.append({'kind': 'custom', 'module': 'values', 'func': 'run_clone_job', 'name': 'clone_eq', 'op': 'clone_eq', 'N': N, 'cfg': 'dev', 'feat': 'std', 'props': [prop]})
         jobs.append({'kind': 'custom', 'module': 'values', 'func': 'run_clear_job', 'name': 'clear_fresh', 'op': 'clear_fresh', 'N': N, 'cfg': 'dev', 'feat': 'std', 'props': [prop]})
         jobs.append({'kind': 'custom', 'module': 'values', 'func': 'run_reserve_job', 'name': 'reserve', 'op': 'reserve', 'N': N, 'cfg': 'dev', 'feat': 'std', 'props': [prop]})
+    jobs += clone_from_jobs(prop, tier)
+    return jobs
+
+
+def clone_from_jobs(prop, tier):
+    jobs = []
+    mx = 2 if tier == 'quick' else 3
+    for M in range(0, mx + 1):
+        for N in range(0, mx + 1):
+            jobs.append({'kind': 'custom', 'module': 'values', 'func': 'run_clone_from_job', 'name': 'clone_from', 'op': 'clone_from', 'M': M, 'N': N, 'cfg': 'dev', 'feat': 'std', 'props': [prop]})
     return jobs
 
 
@@ -214,7 +231,8 @@ def plan_dev(prop, tier):
         for N in range(1, (3 if tier == 'quick' else 4) + 1):
             jobs.append({'kind': 'custom', 'module': 'multistep', 'func': 'run_append_value_equiv_job', 'name': 'append_value_equiv', 'op': 'append_value_equiv',
                          'N': N, 'cfg': 'dev', 'feat': 'std', 'props': [prop]})
-    if prop == 'C08': jobs += [j for j in value_jobs('C08', tier) if j['func'] == 'run_clear_job']
+    if prop == 'C08': jobs += [j for j in value_jobs('C08', tier) if j['func'] in ('run_clear_job', 'run_clone_from_job')]
+    if prop == 'C11': jobs += clone_from_jobs('C11', tier)
     if prop == 'C14': jobs += pretty_jobs(prop, tier)
     if prop == 'C17': jobs += c17_jobs(prop, tier)
     if prop == 'C13': jobs += value_jobs(prop, tier)
